@@ -253,14 +253,15 @@ fn compute_size_value_of_malloc_like_call(
 ) -> Option<Data> {
     match called_symbol.name.as_str() {
         "malloc" | "operator.new" | "operator.new[]" => {
-            let size_param = &called_symbol.parameters[0];
+            // Ghidra may not be supplying parameter information for the symbol.
+            let size_param = called_symbol.parameters.first()?;
             match pointer_inference.eval_parameter_arg_at_call(jmp_tid, size_param) {
                 Some(size_value) => Some(size_value),
                 None => Some(Data::new_top(size_param.bytesize())),
             }
         }
         "realloc" => {
-            let size_param = &called_symbol.parameters[1];
+            let size_param = called_symbol.parameters.get(1)?;
             match pointer_inference.eval_parameter_arg_at_call(jmp_tid, size_param) {
                 Some(size_value) => Some(size_value),
                 None => Some(Data::new_top(size_param.bytesize())),
@@ -285,8 +286,8 @@ fn compute_size_value_of_malloc_like_call(
             }
         }
         "calloc" => {
-            let count_param = &called_symbol.parameters[0];
-            let size_param = &called_symbol.parameters[1];
+            let count_param = called_symbol.parameters.first()?;
+            let size_param = called_symbol.parameters.get(1)?;
             match (
                 pointer_inference.eval_parameter_arg_at_call(jmp_tid, count_param),
                 pointer_inference.eval_parameter_arg_at_call(jmp_tid, size_param),
